@@ -414,6 +414,8 @@ def apply_op(ix, op):
                 res.update(report_dict(t.create_webentity(list(op["ps"]))))
             elif name == "DeleteWe":
                 res["ret"] = t.delete_webentity(op["id"], list(op["ps"]))
+            elif name == "DeleteWeNC":
+                res["ret"] = t.delete_webentity(op["id"], list(op["ps"]), check_for_corruption=False)
             elif name == "AddPrefix":
                 res["ret"] = t.add_prefix_to_webentity(op["p"], op["id"])
             elif name == "RemovePrefix":
